@@ -91,6 +91,7 @@ def dispatch : List String → String
     | _, _, _ => "bad-arg"
   | ["e2e", h] => runE2E h
   | ["e2e_fresh", h] => runE2E h
+  | ["e2e_getpost", a, b] => runE2E a ++ " ## " ++ runE2E b
   | ["e2e_pair", a, b] => projectForChunking (runE2E a) ++ " ## " ++ projectForChunking (runE2E b)
   | _ => "bad-op"
 
